@@ -247,18 +247,18 @@ type monitor struct {
 
 type memberInfo struct {
 	name     string
-	mutated  bool            // assigned after construction, or mutated in place
-	guardBy  map[string]int  // lock field -> number of accesses holding it
+	mutated  bool           // assigned after construction, or mutated in place
+	guardBy  map[string]int // lock field -> number of accesses holding it
 	accesses []*memberAccess
 }
 
 type memberAccess struct {
-	fn     *ssa.Function
-	instr  ssa.Instruction
-	base   ssa.Value
-	write  bool
-	ctor   bool
-	held   lockset
+	fn    *ssa.Function
+	instr ssa.Instruction
+	base  ssa.Value
+	write bool
+	ctor  bool
+	held  lockset
 }
 
 func isMutexType(t types.Type) bool {
@@ -451,9 +451,9 @@ func containerReachesLoads(v ssa.Value, pred func(ssa.Value) bool) bool {
 type lockAnalysis struct {
 	wrappers  map[*ssa.Function]map[string]string
 	releasers map[*ssa.Function]map[string]bool
-	c        *Ctx
-	monitors []*monitor
-	locks    map[*ssa.Function]*funcLocks
+	c         *Ctx
+	monitors  []*monitor
+	locks     map[*ssa.Function]*funcLocks
 }
 
 var laCache = map[*core.Prog]*lockAnalysis{}
